@@ -36,6 +36,9 @@ type Env struct {
 	// entry bindings of the parameters (loop environments only): inside old(..)
 	// a parameter name means its value on entry, even if the loop reassigns it
 	entryVars map[string]envVar
+	// the expression belongs to a library contract applied at a call site
+	// (static(x) is only meaningful there)
+	libCallee bool
 }
 
 type specErr struct{ msg string }
@@ -157,8 +160,12 @@ func (g *Gen) varsAt(h *ssa.BasicBlock) (map[string]Val, map[string]Val) {
 		blk *ssa.BasicBlock
 		idx int
 		add bool
+		obj token.Pos
 	}
 	best := map[string]cand{}
+	// escaping locals (captured or address-taken): the Alloc of the variable,
+	// keyed by the position of its declaration
+	cells := map[token.Pos]*ssa.Alloc{}
 	for _, b := range g.fn.Blocks {
 		if b != h && !b.Dominates(h) {
 			continue
@@ -167,12 +174,18 @@ func (g *Gen) varsAt(h *ssa.BasicBlock) (map[string]Val, map[string]Val) {
 			continue
 		}
 		for i, in := range b.Instrs {
+			if a, ok := in.(*ssa.Alloc); ok && a.Heap && a.Comment != "" && a.Pos().IsValid() {
+				if _, have := g.vals[a]; have {
+					cells[a.Pos()] = a
+				}
+				continue
+			}
 			if phi, ok := in.(*ssa.Phi); ok && phi.Comment != "" && phi.Comment != "rangeindex" {
 				// a phi redefines the variable at the start of its block
 				if _, have := g.vals[phi]; have {
 					c, have := best[phi.Comment]
 					if !have || c.blk.Dominates(b) {
-						best[phi.Comment] = cand{phi, b, -1, false}
+						best[phi.Comment] = cand{phi, b, -1, false, token.NoPos}
 					}
 				}
 				continue
@@ -196,7 +209,11 @@ func (g *Gen) varsAt(h *ssa.BasicBlock) (map[string]Val, map[string]Val) {
 			}
 			c, have := best[name]
 			if !have || c.blk.Dominates(b) && (c.blk != b || c.idx < i) {
-				best[name] = cand{d.X, b, i, d.IsAddr}
+				var op token.Pos
+				if o := d.Object(); o != nil {
+					op = o.Pos()
+				}
+				best[name] = cand{d.X, b, i, d.IsAddr, op}
 			}
 		}
 	}
@@ -210,6 +227,15 @@ func (g *Gen) varsAt(h *ssa.BasicBlock) (map[string]Val, map[string]Val) {
 				addrs[n] = a
 			}
 			continue
+		}
+		// the last reference seen is the value stored at the variable's
+		// declaration, but the variable lives in a cell: its value is the cell's
+		// content at the time of use
+		if a, ok := cells[c.obj]; ok && c.obj.IsValid() && a.Comment == n {
+			if av := g.val(a); av.Loc == nil && av.T != "" {
+				addrs[n] = av
+				continue
+			}
 		}
 		// a load of an address-taken variable is a snapshot that may be stale
 		// at the loop head: use the address instead
@@ -798,7 +824,9 @@ func (e *Env) call(x *ECall) Val {
 				vars[k] = v
 			}
 			for k, v := range e.entryVars {
-				if !e.bound[k] && !v.deref {
+				if !e.bound[k] {
+					// captured variables (deref) too: read in the entry state, the cell
+					// yields the value the variable had on entry
 					vars[k] = v
 				}
 			}
@@ -844,6 +872,25 @@ func (e *Env) call(x *ECall) Val {
 			t = sx("i-val", v.T)
 		}
 		return Val{T: sx(">", t, e.old.alloc), S: "Bool"}
+	case "static":
+		// static(x), library contracts only: the object was allocated at program
+		// initialisation (package-level tables such as curve parameters), hence
+		// before the entry of whichever function is being verified
+		if !e.libCallee {
+			e.fail("static(x) may only be used in library contracts")
+		}
+		v := arg(0)
+		t := v.T
+		switch v.S {
+		case "Slice":
+			t = sx("s-arr", v.T)
+		case "Iface":
+			t = sx("i-val", v.T)
+		}
+		if g.entry == nil {
+			return Val{T: "true", S: "Bool"}
+		}
+		return Val{T: sx("<=", t, g.entry.alloc), S: "Bool"}
 	case "allocated":
 		v := arg(0)
 		t := v.T
@@ -907,6 +954,16 @@ func (e *Env) call(x *ECall) Val {
 		// channel ghost) at a Go pointer type
 		v := arg(0)
 		tn := x.Args[1].(*EStr).V
+		if tn == "error" {
+			// an error value read back from a channel ghost (boxed interface)
+			t := types.Universe.Lookup("error").Type()
+			return Val{T: g.unboxAny(v.T, "Iface"), S: "Iface", G: t}
+		}
+		if tn == "[]byte" {
+			// a byte slice read back from a channel ghost (boxed)
+			t := types.NewSlice(types.Typ[types.Byte])
+			return Val{T: g.unboxAny(v.T, "Slice"), S: "Slice", G: t}
+		}
 		t := g.P.typeByName(tn)
 		if t == nil {
 			e.fail("unknown type %s", tn)
@@ -1044,6 +1101,14 @@ func (e *Env) call(x *ECall) Val {
 			return Val{T: x.Fn, S: f.res}
 		}
 		rv := Val{T: sx(x.Fn, as...), S: f.res}
+		if strings.HasPrefix(x.Fn, "lem") && f.res == "Bool" && len(e.bound) == 0 {
+			// lemma instance (prelude: lemX(args) holds for all args, and naming an
+			// instance triggers the lemma's body). Stated outside any path guard so
+			// that the instance is available to every obligation of the function,
+			// whatever the solver's relevancy filter makes of the guards.
+			g.assumeRaw(rv.T)
+			return Val{T: "true", S: "Bool"}
+		}
 		if tn, ok := g.P.cs.SpecTypes[x.Fn]; ok {
 			rv.G = g.P.typeByName(tn)
 		}
@@ -1078,6 +1143,23 @@ func (e *Env) modLocs(x Expr) []modLoc {
 		case "val":
 			v := e.tr(x.Args[0])
 			return []modLoc{{heap: "BV", base: v.T, sort: "Int"}}
+		case "cellof":
+			// cellof(x): the variable x itself, for a variable captured by reference
+			// (closures) or otherwise address-taken
+			id, ok := x.Args[0].(*EIdent)
+			if !ok {
+				e.fail("cellof: expected a variable name")
+			}
+			ev, ok := e.vars[id.Name]
+			if !ok || !ev.deref {
+				e.fail("cellof(%s): not a variable held in a cell", id.Name)
+			}
+			pt, ok := ev.v.G.Underlying().(*types.Pointer)
+			if !ok {
+				e.fail("cellof(%s): not a cell", id.Name)
+			}
+			l := g.cellLoc(ev.v, pt.Elem())
+			return []modLoc{{heap: l.Heap, base: l.Base, sort: l.S, g: l.G}}
 		case "allof":
 			tn := x.Args[0].(*EStr).V
 			t := g.P.typeByName(tn)
@@ -1384,6 +1466,12 @@ func (g *Gen) calleeWriteHeaps(c *ssa.CallCommon) ([]string, bool) {
 		}
 		return nil, false
 	}
+	if n := intrinsicName(c); n != "" {
+		if n == "sync/atomic.AddInt32" {
+			return g.heapsOfAddr(c.Args[0]), false
+		}
+		return nil, false
+	}
 	ci := g.resolveCallee(c)
 	if ci.ct == nil {
 		return nil, true
@@ -1525,6 +1613,9 @@ func (g *Gen) call(c *ssa.CallCommon, pos token.Pos, isGo bool) Val {
 	if b, ok := c.Value.(*ssa.Builtin); ok {
 		return g.builtin(b, c)
 	}
+	if r, ok := g.intrinsic(c); ok {
+		return r
+	}
 	ci := g.resolveCallee(c)
 	sk := shortKey(ci.key)
 	g.callees[ci.key] = true
@@ -1615,7 +1706,7 @@ func (g *Gen) call(c *ssa.CallCommon, pos token.Pos, isGo bool) Val {
 	}
 	names, _ := calleeParams(ci, c)
 	pre := g.st.clone()
-	env := &Env{g: g, vars: map[string]envVar{}, st: pre, old: pre, bound: map[string]bool{}}
+	env := &Env{g: g, vars: map[string]envVar{}, st: pre, old: pre, bound: map[string]bool{}, libCallee: ct.NoBody}
 	if ci.fn != nil {
 		env.pkg = pkgOf(ci.fn)
 	} else if ci.invoke {
@@ -1812,9 +1903,16 @@ func lastDot(s string) string {
 
 func (g *Gen) siteEnv(ci calleeInfo, c *ssa.CallCommon, args []Val) *Env {
 	env := g.funcEnv(g.st, g.entry, nil)
-	for n, v := range g.varsAtPoint() {
+	vals, cells := g.varsAtPoint()
+	for n, v := range vals {
 		if _, have := env.vars[n]; !have {
 			env.vars[n] = envVar{v: v}
+		}
+	}
+	for n, v := range cells {
+		// a variable that lives in a cell: its value is the cell's content now
+		if _, have := env.vars[n]; !have {
+			env.vars[n] = envVar{v: v, deref: true}
 		}
 	}
 	for i, a := range args {
@@ -1826,12 +1924,12 @@ func (g *Gen) siteEnv(ci calleeInfo, c *ssa.CallCommon, args []Val) *Env {
 // varsAtPoint: source-level variables visible at the current instruction (for
 // call-site assertions): those of the dominating blocks plus the phis and debug
 // references of the current block up to the instruction.
-func (g *Gen) varsAtPoint() map[string]Val {
+func (g *Gen) varsAtPoint() (map[string]Val, map[string]Val) {
 	out := map[string]Val{}
 	if g.curBlk == nil {
-		return out
+		return out, nil
 	}
-	names, _ := g.varsAt(g.curBlk)
+	names, addrs := g.varsAt(g.curBlk)
 	for n, v := range names {
 		out[n] = v
 	}
@@ -1865,9 +1963,12 @@ func (g *Gen) varsAtPoint() map[string]Val {
 		if v.Loc != nil || len(v.Tup) > 0 {
 			continue
 		}
+		if _, isCell := addrs[id.String()]; isCell {
+			continue
+		}
 		out[id.String()] = v
 	}
-	return out
+	return out, addrs
 }
 
 func (g *Gen) frameCheckMod(ml modLoc) {
@@ -2179,4 +2280,52 @@ func (g *Gen) copyOp(c *ssa.CallCommon) Val {
 	g.cur = save
 	g.setHeap(g.st, hn, hs, sx("ite", sx(">", n, "0"), sx("store", h, sx("s-arr", d.T), A), h))
 	return Val{T: n, S: "Int", G: types.Typ[types.Int]}
+}
+
+// ---------- intrinsics ----------
+
+// intrinsicName: the few library functions the generator executes itself
+// instead of through a contract (their meaning is not expressible in the
+// contract language: real-valued results, a store through a pointer to a
+// machine integer).
+func intrinsicName(c *ssa.CallCommon) string {
+	fn, ok := c.Value.(*ssa.Function)
+	if !ok || fn.Pkg == nil || c.IsInvoke() {
+		return ""
+	}
+	switch n := fn.Pkg.Pkg.Path() + "." + fn.Name(); n {
+	case "math.Ceil", "math.Floor", "sync/atomic.AddInt32":
+		return n
+	}
+	return ""
+}
+
+func (g *Gen) intrinsic(c *ssa.CallCommon) (Val, bool) {
+	switch intrinsicName(c) {
+	case "math.Ceil":
+		// floats are modelled as reals (see convert); ceil(x) = -floor(-x)
+		v := g.val(c.Args[0])
+		g.assumed = appendUniq(g.assumed, "float64 values are modelled as real numbers (exact for the integer/2^k values that occur); math.Ceil/Floor as the real ceiling/floor")
+		return Val{T: sx("-", sx("to_real", sx("to_int", sx("-", v.T)))), S: "Real", G: types.Typ[types.Float64]}, true
+	case "math.Floor":
+		v := g.val(c.Args[0])
+		g.assumed = appendUniq(g.assumed, "float64 values are modelled as real numbers (exact for the integer/2^k values that occur); math.Ceil/Floor as the real ceiling/floor")
+		return Val{T: sx("to_real", sx("to_int", v.T)), S: "Real", G: types.Typ[types.Float64]}, true
+	case "sync/atomic.AddInt32":
+		// *addr += delta (wrapping), returns the new value; executed at once
+		// under the join rule, so atomicity adds nothing
+		p, d := g.val(c.Args[0]), g.val(c.Args[1])
+		if p.Loc != nil {
+			g.bail("atomic.AddInt32 on an unreified address")
+		}
+		g.check("nil", "atomic.AddInt32", not(sx("=", p.T, "0")), "nil pointer dereference (atomic.AddInt32)")
+		et := types.Typ[types.Int32]
+		l := g.cellLoc(p, et)
+		old := g.loadLoc(g.st, l)
+		nv := g.define("atomicadd", "Int", wrap(sx("+", old.T, d.T), et, true))
+		g.frameCheck(l.Heap, p.T, "", LCell)
+		g.storeLoc(g.st, l, nv)
+		return Val{T: nv, S: "Int", G: et}, true
+	}
+	return Val{}, false
 }
